@@ -92,6 +92,20 @@ func (l *lcdRun) do(op string) string {
 			l.p.WriteLY(uint8(unhex(w[1])))
 		case "scx":
 			l.p.WriteSCX(uint8(unhex(w[1]))) // scrolling must not influence line/mode timing or requests
+		case "sprites":
+			// OAM filled with objects (Y spread over the screen, many per line): the number of objects on a line
+			// must not influence line/mode timing or requests either (the documented schedule is fixed)
+			g := rng{s: uint64(unhex(w[1]))}
+			var o [0xa0]uint8
+			band := 16 + g.intn(140)
+			for i := 0; i < 40; i++ {
+				y := 16 + g.intn(144)
+				if i%2 == 0 {
+					y = band + g.intn(8)
+				}
+				o[4*i], o[4*i+1], o[4*i+2], o[4*i+3] = uint8(y), uint8(8+g.intn(160)), g.byte(), g.byte()
+			}
+			l.o.VerifSetOAM(o)
 		default:
 			return "bad-op"
 		}
@@ -157,6 +171,14 @@ func lcdGen(c *ctx) {
 	// arithmetic survives it) and SCX rewritten around the end of mode 3 of a line (scrolling must not move any
 	// mode boundary or request)
 	l.steady(0x78, 0x90, 5*lcdFrame+200)
+	for k := 0; k < 3; k++ { // objects on many lines, objects enabled (LCDC.1): the same schedule
+		l.do("reset")
+		l.do(fmt.Sprintf("sprites %x", c.rng.intn(1<<30)))
+		l.do("lcdc 13")
+		l.do("stat 38")
+		l.do([]string{"lcdc 93", "lcdc 97", "lcdc b3"}[k])
+		l.ticks(lcdFrame + 2000)
+	}
 	for _, ln := range []int{3, 143} {
 		for cyc := 56; cyc < 70; cyc++ {
 			l.do("reset")
@@ -253,6 +275,9 @@ func lcdGen(c *ctx) {
 	burst := []int{1, 1, 2, 3, 5, 19, 20, 21, 41, 60, 61, 62, 63, 112, 113, 114, 115, 228}
 	for s := 0; s < scheds; s++ {
 		l.do("reset")
+		if s%2 == 1 {
+			l.do(fmt.Sprintf("sprites %x", c.rng.intn(1<<30)))
+		}
 		used := 0
 		if c.rng.chance(16) { // start somewhere late in the frame
 			n := c.rng.pick([]int{16300, 16415, 17440, 17554}) + c.rng.intn(4) - 2
